@@ -457,7 +457,8 @@ def describe(tier):
                 "{-400,-3,-1,0,+1,+3} x 1-3 seasons x end {maturity-2..+2, latest harvest-1..+1, next planting-2..+2, mid-season, far} x off-season {F,T}"
                 + (" (every second window in the quick tier)" if tier == "quick" else "") + "; leap-day windows; crop death forced on EVERY day-after-planting k of the season "
                 "(environment choice injected after the real canopy_cover); explicit latest-harvest dates binding before/at/after maturity; six stepping styles "
-                "(till_termination, 1, 2, 3, 7, 1000 steps per call); a short thermal-time crop; natural deaths under the dry word. Each executed trace "
+                "(till_termination, 1, 2, 3, 7, 1000 steps per call); a short thermal-time crop; a degree-day sum landing exactly on the maturity threshold; calendar crops CONVERTED to thermal time (SwitchGDD=1) over 1-3 seasons under words with nights above the upper / below the base temperature, "
+                "the converted maturity threshold re-derived by an independent degree-day model from the configured weather; natural deaths under the dry word. Each executed trace "
                 "(date, season, days-after-planting, in-season flag, harvest event, finished flag per transition) is checked against direct invariants and "
                 "element-wise against a reference calendar automaton (pure date arithmetic). Non-trivial = jump / off-season / death / latest-date / "
                 "cut-season / New-Year / thermal / chunked regimes.",
